@@ -57,6 +57,15 @@ check('C01', TV,
       'SMT (z3) equivalence of reference mini-gringo HT semantics vs real tau* output, per enumerated program',
       'DESIGN.md 5 (C01)')
 
+check('C08', TV,
+      'For every enumerated rule the real natural_rule / mu / tau* translations are run; whenever natural accepts, and '
+      'always for mu, z3 decides that the formula has the same HT models and classical models as the tau* formula of the '
+      'same rule (all H subset-of T, unbounded integers, symbolic numerals); results must be closed formulas and mu must '
+      'return one formula per rule.',
+      BASE_NOTE + ' Oracle = the real tau* output (as the property states); tau* itself is validated by C01.',
+      'SMT (z3) HT-equivalence of real natural/mu output vs real tau* output, per enumerated rule',
+      'DESIGN.md 5 (C08)')
+
 NOT_APPLICABLE = [
     ('C10', 'thread pool + process spawning + regex over prover output: no symbolic reach for Kani/CBMC (no concurrency/process model) and nothing for an SMT encoding to carry; see DESIGN.md 6'),
     ('C11', 'graph algorithms over HashMap/petgraph/IndexSet on concrete programs: nothing left for a solver to quantify over, and symbolic programs are out of reach (DESIGN.md 1.1, 6)'),
